@@ -324,7 +324,13 @@ fn channel_id_clause(o: &mut Outcome, seed: u64) {
     };
     let pk = m.cfg.signing_keypair().public_key();
     let (mr, cr) = (s.bytes(32), s.bytes(32));
-    let (la, lb) = (1 + s.usize(24), 1 + s.usize(24));
+    // account strings of every length class (short ids, long descriptors)
+    let (la, lb) = match seed % 4 {
+        0 => (1 + s.usize(24), 1 + s.usize(24)),
+        1 => (40 + s.usize(200), 1 + s.usize(24)),
+        2 => (1 + s.usize(24), 100 + s.usize(400)),
+        _ => (64 + s.usize(64), 64 + s.usize(64)),
+    };
     let (ma, ca) = (s.bytes(la), s.bytes(lb));
     let base = mk(&mr, &cr, pk, &ma, &ca);
     o.events += 1;
